@@ -737,6 +737,59 @@ impl Default for Tchxnull {
     }
 }
 
+#[asn(choice)]
+
+#[derive(Debug, Clone, PartialEq, Hash)]
+pub enum Tchlist {
+    #[asn(sequence_of(integer(0..255)))] L(Vec<u8>),
+    #[asn(null)] N(Null),
+    #[asn(boolean)] B(bool),
+}
+
+impl Tchlist {
+    pub fn variants() -> [Self; 3] {
+        [
+        Tchlist::L(Default::default()),
+        Tchlist::N(Default::default()),
+        Tchlist::B(Default::default()),
+        ]
+    }
+
+    pub fn value_index(&self) -> usize {
+        match self {
+            Tchlist::L(_) => 0,
+            Tchlist::N(_) => 1,
+            Tchlist::B(_) => 2,
+        }
+    }
+
+    pub const fn l_min() -> u8 {
+        0
+    }
+
+    pub const fn l_max() -> u8 {
+        255
+    }
+}
+
+impl Default for Tchlist {
+    fn default() -> Tchlist {
+        Tchlist::L(Default::default())
+    }
+}
+
+#[asn(sequence)]
+
+#[derive(Default, Debug, Clone, PartialEq, Hash)]
+pub struct Tseqchlist {
+    #[asn(boolean)] pub pre: bool,
+    #[asn(complex(Tchlist, tag(UNIVERSAL(1))))] pub c: Tchlist,
+    #[asn(boolean)] pub post: bool,
+}
+
+impl Tseqchlist {
+}
+
 #[asn(sequence)]
 
 #[derive(Default, Debug, Clone, PartialEq, Hash)]
@@ -887,6 +940,1250 @@ impl Tbitsanythen {
 
     pub const fn i_max() -> u8 {
         255
+    }
+}
+
+#[asn(sequence, extensible_after(x))]
+
+#[derive(Default, Debug, Clone, PartialEq, Hash)]
+pub struct Tnullroot {
+    #[asn(null)] pub n: Null,
+    #[asn(boolean)] pub x: bool,
+    #[asn(optional(integer(0..7)))] pub a: Option<u8>,
+    #[asn(optional(boolean))] pub b: Option<bool>,
+}
+
+impl Tnullroot {
+    pub const fn a_min() -> u8 {
+        0
+    }
+
+    pub const fn a_max() -> u8 {
+        7
+    }
+}
+
+#[asn(sequence, extensible_after(x))]
+
+#[derive(Default, Debug, Clone, PartialEq, Hash)]
+pub struct Tfixroot {
+    #[asn(integer(5..5))] pub v: u8,
+    #[asn(integer(0..7))] pub x: u8,
+    #[asn(optional(boolean))] pub a: Option<bool>,
+    #[asn(optional(integer(0..3)))] pub b: Option<u8>,
+}
+
+impl Tfixroot {
+    pub const fn v_min() -> u8 {
+        5
+    }
+
+    pub const fn v_max() -> u8 {
+        5
+    }
+
+    pub const fn x_min() -> u8 {
+        0
+    }
+
+    pub const fn x_max() -> u8 {
+        7
+    }
+
+    pub const fn b_min() -> u8 {
+        0
+    }
+
+    pub const fn b_max() -> u8 {
+        3
+    }
+}
+
+#[asn(set, extensible_after(x))]
+
+#[derive(Default, Debug, Clone, PartialEq, Hash)]
+pub struct Tnulloptroot {
+    #[asn(optional(null))] pub n: Option<Null>,
+    #[asn(boolean)] pub x: bool,
+    #[asn(optional(integer(0..7)))] pub a: Option<u8>,
+}
+
+impl Tnulloptroot {
+    pub const fn a_min() -> u8 {
+        0
+    }
+
+    pub const fn a_max() -> u8 {
+        7
+    }
+}
+
+#[asn(sequence)]
+
+#[derive(Default, Debug, Clone, PartialEq, Hash)]
+pub struct Tempty;
+
+impl Tempty {
+}
+
+#[asn(enumerated)]
+
+#[derive(Debug, Clone, PartialEq, Hash, Copy, PartialOrd, Eq, Default)]
+pub enum TzerobitsEn {
+    #[default] E0,
+}
+
+impl TzerobitsEn {
+    pub fn variant(index: usize) -> Option<Self> {
+        match index {
+            0 => Some(TzerobitsEn::E0),
+            _ => None,
+        }
+    }
+
+    pub const fn variants() -> [Self; 1] {
+        [
+        TzerobitsEn::E0,
+        ]
+    }
+
+    pub fn value_index(self) -> usize {
+        match self {
+            TzerobitsEn::E0 => 0,
+        }
+    }
+}
+
+#[asn(sequence, extensible_after(x))]
+
+#[derive(Default, Debug, Clone, PartialEq, Hash)]
+pub struct Tzerobits {
+    #[asn(complex(Tempty, tag(UNIVERSAL(16))))] pub e: Tempty,
+    #[asn(octet_string(size(0)))] pub o: Vec<u8>,
+    #[asn(complex(TzerobitsEn, tag(UNIVERSAL(10))))] pub en: TzerobitsEn,
+    #[asn(ia5string(size(0)))] pub s: String,
+    #[asn(sequence_of(size(0), boolean))] pub l: Vec<bool>,
+    #[asn(boolean)] pub x: bool,
+    #[asn(optional(integer(0..7)))] pub a: Option<u8>,
+    #[asn(optional(boolean))] pub b: Option<bool>,
+}
+
+impl Tzerobits {
+    pub const fn a_min() -> u8 {
+        0
+    }
+
+    pub const fn a_max() -> u8 {
+        7
+    }
+}
+
+#[asn(enumerated, extensible_after(R1))]
+
+#[derive(Debug, Clone, PartialEq, Hash, Copy, PartialOrd, Eq, Default)]
+pub enum Tenumx70 {
+    #[default] R0,
+    R1,
+    X0,
+    X1,
+    X2,
+    X3,
+    X4,
+    X5,
+    X6,
+    X7,
+    X8,
+    X9,
+    X10,
+    X11,
+    X12,
+    X13,
+    X14,
+    X15,
+    X16,
+    X17,
+    X18,
+    X19,
+    X20,
+    X21,
+    X22,
+    X23,
+    X24,
+    X25,
+    X26,
+    X27,
+    X28,
+    X29,
+    X30,
+    X31,
+    X32,
+    X33,
+    X34,
+    X35,
+    X36,
+    X37,
+    X38,
+    X39,
+    X40,
+    X41,
+    X42,
+    X43,
+    X44,
+    X45,
+    X46,
+    X47,
+    X48,
+    X49,
+    X50,
+    X51,
+    X52,
+    X53,
+    X54,
+    X55,
+    X56,
+    X57,
+    X58,
+    X59,
+    X60,
+    X61,
+    X62,
+    X63,
+    X64,
+    X65,
+    X66,
+    X67,
+    X68,
+    X69,
+}
+
+impl Tenumx70 {
+    pub fn variant(index: usize) -> Option<Self> {
+        match index {
+            0 => Some(Tenumx70::R0),
+            1 => Some(Tenumx70::R1),
+            2 => Some(Tenumx70::X0),
+            3 => Some(Tenumx70::X1),
+            4 => Some(Tenumx70::X2),
+            5 => Some(Tenumx70::X3),
+            6 => Some(Tenumx70::X4),
+            7 => Some(Tenumx70::X5),
+            8 => Some(Tenumx70::X6),
+            9 => Some(Tenumx70::X7),
+            10 => Some(Tenumx70::X8),
+            11 => Some(Tenumx70::X9),
+            12 => Some(Tenumx70::X10),
+            13 => Some(Tenumx70::X11),
+            14 => Some(Tenumx70::X12),
+            15 => Some(Tenumx70::X13),
+            16 => Some(Tenumx70::X14),
+            17 => Some(Tenumx70::X15),
+            18 => Some(Tenumx70::X16),
+            19 => Some(Tenumx70::X17),
+            20 => Some(Tenumx70::X18),
+            21 => Some(Tenumx70::X19),
+            22 => Some(Tenumx70::X20),
+            23 => Some(Tenumx70::X21),
+            24 => Some(Tenumx70::X22),
+            25 => Some(Tenumx70::X23),
+            26 => Some(Tenumx70::X24),
+            27 => Some(Tenumx70::X25),
+            28 => Some(Tenumx70::X26),
+            29 => Some(Tenumx70::X27),
+            30 => Some(Tenumx70::X28),
+            31 => Some(Tenumx70::X29),
+            32 => Some(Tenumx70::X30),
+            33 => Some(Tenumx70::X31),
+            34 => Some(Tenumx70::X32),
+            35 => Some(Tenumx70::X33),
+            36 => Some(Tenumx70::X34),
+            37 => Some(Tenumx70::X35),
+            38 => Some(Tenumx70::X36),
+            39 => Some(Tenumx70::X37),
+            40 => Some(Tenumx70::X38),
+            41 => Some(Tenumx70::X39),
+            42 => Some(Tenumx70::X40),
+            43 => Some(Tenumx70::X41),
+            44 => Some(Tenumx70::X42),
+            45 => Some(Tenumx70::X43),
+            46 => Some(Tenumx70::X44),
+            47 => Some(Tenumx70::X45),
+            48 => Some(Tenumx70::X46),
+            49 => Some(Tenumx70::X47),
+            50 => Some(Tenumx70::X48),
+            51 => Some(Tenumx70::X49),
+            52 => Some(Tenumx70::X50),
+            53 => Some(Tenumx70::X51),
+            54 => Some(Tenumx70::X52),
+            55 => Some(Tenumx70::X53),
+            56 => Some(Tenumx70::X54),
+            57 => Some(Tenumx70::X55),
+            58 => Some(Tenumx70::X56),
+            59 => Some(Tenumx70::X57),
+            60 => Some(Tenumx70::X58),
+            61 => Some(Tenumx70::X59),
+            62 => Some(Tenumx70::X60),
+            63 => Some(Tenumx70::X61),
+            64 => Some(Tenumx70::X62),
+            65 => Some(Tenumx70::X63),
+            66 => Some(Tenumx70::X64),
+            67 => Some(Tenumx70::X65),
+            68 => Some(Tenumx70::X66),
+            69 => Some(Tenumx70::X67),
+            70 => Some(Tenumx70::X68),
+            71 => Some(Tenumx70::X69),
+            _ => None,
+        }
+    }
+
+    pub const fn variants() -> [Self; 72] {
+        [
+        Tenumx70::R0,
+        Tenumx70::R1,
+        Tenumx70::X0,
+        Tenumx70::X1,
+        Tenumx70::X2,
+        Tenumx70::X3,
+        Tenumx70::X4,
+        Tenumx70::X5,
+        Tenumx70::X6,
+        Tenumx70::X7,
+        Tenumx70::X8,
+        Tenumx70::X9,
+        Tenumx70::X10,
+        Tenumx70::X11,
+        Tenumx70::X12,
+        Tenumx70::X13,
+        Tenumx70::X14,
+        Tenumx70::X15,
+        Tenumx70::X16,
+        Tenumx70::X17,
+        Tenumx70::X18,
+        Tenumx70::X19,
+        Tenumx70::X20,
+        Tenumx70::X21,
+        Tenumx70::X22,
+        Tenumx70::X23,
+        Tenumx70::X24,
+        Tenumx70::X25,
+        Tenumx70::X26,
+        Tenumx70::X27,
+        Tenumx70::X28,
+        Tenumx70::X29,
+        Tenumx70::X30,
+        Tenumx70::X31,
+        Tenumx70::X32,
+        Tenumx70::X33,
+        Tenumx70::X34,
+        Tenumx70::X35,
+        Tenumx70::X36,
+        Tenumx70::X37,
+        Tenumx70::X38,
+        Tenumx70::X39,
+        Tenumx70::X40,
+        Tenumx70::X41,
+        Tenumx70::X42,
+        Tenumx70::X43,
+        Tenumx70::X44,
+        Tenumx70::X45,
+        Tenumx70::X46,
+        Tenumx70::X47,
+        Tenumx70::X48,
+        Tenumx70::X49,
+        Tenumx70::X50,
+        Tenumx70::X51,
+        Tenumx70::X52,
+        Tenumx70::X53,
+        Tenumx70::X54,
+        Tenumx70::X55,
+        Tenumx70::X56,
+        Tenumx70::X57,
+        Tenumx70::X58,
+        Tenumx70::X59,
+        Tenumx70::X60,
+        Tenumx70::X61,
+        Tenumx70::X62,
+        Tenumx70::X63,
+        Tenumx70::X64,
+        Tenumx70::X65,
+        Tenumx70::X66,
+        Tenumx70::X67,
+        Tenumx70::X68,
+        Tenumx70::X69,
+        ]
+    }
+
+    pub fn value_index(self) -> usize {
+        match self {
+            Tenumx70::R0 => 0,
+            Tenumx70::R1 => 1,
+            Tenumx70::X0 => 2,
+            Tenumx70::X1 => 3,
+            Tenumx70::X2 => 4,
+            Tenumx70::X3 => 5,
+            Tenumx70::X4 => 6,
+            Tenumx70::X5 => 7,
+            Tenumx70::X6 => 8,
+            Tenumx70::X7 => 9,
+            Tenumx70::X8 => 10,
+            Tenumx70::X9 => 11,
+            Tenumx70::X10 => 12,
+            Tenumx70::X11 => 13,
+            Tenumx70::X12 => 14,
+            Tenumx70::X13 => 15,
+            Tenumx70::X14 => 16,
+            Tenumx70::X15 => 17,
+            Tenumx70::X16 => 18,
+            Tenumx70::X17 => 19,
+            Tenumx70::X18 => 20,
+            Tenumx70::X19 => 21,
+            Tenumx70::X20 => 22,
+            Tenumx70::X21 => 23,
+            Tenumx70::X22 => 24,
+            Tenumx70::X23 => 25,
+            Tenumx70::X24 => 26,
+            Tenumx70::X25 => 27,
+            Tenumx70::X26 => 28,
+            Tenumx70::X27 => 29,
+            Tenumx70::X28 => 30,
+            Tenumx70::X29 => 31,
+            Tenumx70::X30 => 32,
+            Tenumx70::X31 => 33,
+            Tenumx70::X32 => 34,
+            Tenumx70::X33 => 35,
+            Tenumx70::X34 => 36,
+            Tenumx70::X35 => 37,
+            Tenumx70::X36 => 38,
+            Tenumx70::X37 => 39,
+            Tenumx70::X38 => 40,
+            Tenumx70::X39 => 41,
+            Tenumx70::X40 => 42,
+            Tenumx70::X41 => 43,
+            Tenumx70::X42 => 44,
+            Tenumx70::X43 => 45,
+            Tenumx70::X44 => 46,
+            Tenumx70::X45 => 47,
+            Tenumx70::X46 => 48,
+            Tenumx70::X47 => 49,
+            Tenumx70::X48 => 50,
+            Tenumx70::X49 => 51,
+            Tenumx70::X50 => 52,
+            Tenumx70::X51 => 53,
+            Tenumx70::X52 => 54,
+            Tenumx70::X53 => 55,
+            Tenumx70::X54 => 56,
+            Tenumx70::X55 => 57,
+            Tenumx70::X56 => 58,
+            Tenumx70::X57 => 59,
+            Tenumx70::X58 => 60,
+            Tenumx70::X59 => 61,
+            Tenumx70::X60 => 62,
+            Tenumx70::X61 => 63,
+            Tenumx70::X62 => 64,
+            Tenumx70::X63 => 65,
+            Tenumx70::X64 => 66,
+            Tenumx70::X65 => 67,
+            Tenumx70::X66 => 68,
+            Tenumx70::X67 => 69,
+            Tenumx70::X68 => 70,
+            Tenumx70::X69 => 71,
+        }
+    }
+}
+
+#[asn(choice, extensible_after(R0))]
+
+#[derive(Debug, Clone, PartialEq, Hash)]
+pub enum Tchoicex70 {
+    #[asn(boolean)] R0(bool),
+    #[asn(integer(0..7))] X0(u8),
+    #[asn(integer(0..7))] X1(u8),
+    #[asn(integer(0..7))] X2(u8),
+    #[asn(integer(0..7))] X3(u8),
+    #[asn(integer(0..7))] X4(u8),
+    #[asn(integer(0..7))] X5(u8),
+    #[asn(integer(0..7))] X6(u8),
+    #[asn(integer(0..7))] X7(u8),
+    #[asn(integer(0..7))] X8(u8),
+    #[asn(integer(0..7))] X9(u8),
+    #[asn(integer(0..7))] X10(u8),
+    #[asn(integer(0..7))] X11(u8),
+    #[asn(integer(0..7))] X12(u8),
+    #[asn(integer(0..7))] X13(u8),
+    #[asn(integer(0..7))] X14(u8),
+    #[asn(integer(0..7))] X15(u8),
+    #[asn(integer(0..7))] X16(u8),
+    #[asn(integer(0..7))] X17(u8),
+    #[asn(integer(0..7))] X18(u8),
+    #[asn(integer(0..7))] X19(u8),
+    #[asn(integer(0..7))] X20(u8),
+    #[asn(integer(0..7))] X21(u8),
+    #[asn(integer(0..7))] X22(u8),
+    #[asn(integer(0..7))] X23(u8),
+    #[asn(integer(0..7))] X24(u8),
+    #[asn(integer(0..7))] X25(u8),
+    #[asn(integer(0..7))] X26(u8),
+    #[asn(integer(0..7))] X27(u8),
+    #[asn(integer(0..7))] X28(u8),
+    #[asn(integer(0..7))] X29(u8),
+    #[asn(integer(0..7))] X30(u8),
+    #[asn(integer(0..7))] X31(u8),
+    #[asn(integer(0..7))] X32(u8),
+    #[asn(integer(0..7))] X33(u8),
+    #[asn(integer(0..7))] X34(u8),
+    #[asn(integer(0..7))] X35(u8),
+    #[asn(integer(0..7))] X36(u8),
+    #[asn(integer(0..7))] X37(u8),
+    #[asn(integer(0..7))] X38(u8),
+    #[asn(integer(0..7))] X39(u8),
+    #[asn(integer(0..7))] X40(u8),
+    #[asn(integer(0..7))] X41(u8),
+    #[asn(integer(0..7))] X42(u8),
+    #[asn(integer(0..7))] X43(u8),
+    #[asn(integer(0..7))] X44(u8),
+    #[asn(integer(0..7))] X45(u8),
+    #[asn(integer(0..7))] X46(u8),
+    #[asn(integer(0..7))] X47(u8),
+    #[asn(integer(0..7))] X48(u8),
+    #[asn(integer(0..7))] X49(u8),
+    #[asn(integer(0..7))] X50(u8),
+    #[asn(integer(0..7))] X51(u8),
+    #[asn(integer(0..7))] X52(u8),
+    #[asn(integer(0..7))] X53(u8),
+    #[asn(integer(0..7))] X54(u8),
+    #[asn(integer(0..7))] X55(u8),
+    #[asn(integer(0..7))] X56(u8),
+    #[asn(integer(0..7))] X57(u8),
+    #[asn(integer(0..7))] X58(u8),
+    #[asn(integer(0..7))] X59(u8),
+    #[asn(integer(0..7))] X60(u8),
+    #[asn(integer(0..7))] X61(u8),
+    #[asn(integer(0..7))] X62(u8),
+    #[asn(integer(0..7))] X63(u8),
+    #[asn(integer(0..7))] X64(u8),
+    #[asn(integer(0..7))] X65(u8),
+    #[asn(integer(0..7))] X66(u8),
+    #[asn(integer(0..7))] X67(u8),
+    #[asn(integer(0..7))] X68(u8),
+    #[asn(integer(0..7))] X69(u8),
+}
+
+impl Tchoicex70 {
+    pub fn variants() -> [Self; 71] {
+        [
+        Tchoicex70::R0(Default::default()),
+        Tchoicex70::X0(Default::default()),
+        Tchoicex70::X1(Default::default()),
+        Tchoicex70::X2(Default::default()),
+        Tchoicex70::X3(Default::default()),
+        Tchoicex70::X4(Default::default()),
+        Tchoicex70::X5(Default::default()),
+        Tchoicex70::X6(Default::default()),
+        Tchoicex70::X7(Default::default()),
+        Tchoicex70::X8(Default::default()),
+        Tchoicex70::X9(Default::default()),
+        Tchoicex70::X10(Default::default()),
+        Tchoicex70::X11(Default::default()),
+        Tchoicex70::X12(Default::default()),
+        Tchoicex70::X13(Default::default()),
+        Tchoicex70::X14(Default::default()),
+        Tchoicex70::X15(Default::default()),
+        Tchoicex70::X16(Default::default()),
+        Tchoicex70::X17(Default::default()),
+        Tchoicex70::X18(Default::default()),
+        Tchoicex70::X19(Default::default()),
+        Tchoicex70::X20(Default::default()),
+        Tchoicex70::X21(Default::default()),
+        Tchoicex70::X22(Default::default()),
+        Tchoicex70::X23(Default::default()),
+        Tchoicex70::X24(Default::default()),
+        Tchoicex70::X25(Default::default()),
+        Tchoicex70::X26(Default::default()),
+        Tchoicex70::X27(Default::default()),
+        Tchoicex70::X28(Default::default()),
+        Tchoicex70::X29(Default::default()),
+        Tchoicex70::X30(Default::default()),
+        Tchoicex70::X31(Default::default()),
+        Tchoicex70::X32(Default::default()),
+        Tchoicex70::X33(Default::default()),
+        Tchoicex70::X34(Default::default()),
+        Tchoicex70::X35(Default::default()),
+        Tchoicex70::X36(Default::default()),
+        Tchoicex70::X37(Default::default()),
+        Tchoicex70::X38(Default::default()),
+        Tchoicex70::X39(Default::default()),
+        Tchoicex70::X40(Default::default()),
+        Tchoicex70::X41(Default::default()),
+        Tchoicex70::X42(Default::default()),
+        Tchoicex70::X43(Default::default()),
+        Tchoicex70::X44(Default::default()),
+        Tchoicex70::X45(Default::default()),
+        Tchoicex70::X46(Default::default()),
+        Tchoicex70::X47(Default::default()),
+        Tchoicex70::X48(Default::default()),
+        Tchoicex70::X49(Default::default()),
+        Tchoicex70::X50(Default::default()),
+        Tchoicex70::X51(Default::default()),
+        Tchoicex70::X52(Default::default()),
+        Tchoicex70::X53(Default::default()),
+        Tchoicex70::X54(Default::default()),
+        Tchoicex70::X55(Default::default()),
+        Tchoicex70::X56(Default::default()),
+        Tchoicex70::X57(Default::default()),
+        Tchoicex70::X58(Default::default()),
+        Tchoicex70::X59(Default::default()),
+        Tchoicex70::X60(Default::default()),
+        Tchoicex70::X61(Default::default()),
+        Tchoicex70::X62(Default::default()),
+        Tchoicex70::X63(Default::default()),
+        Tchoicex70::X64(Default::default()),
+        Tchoicex70::X65(Default::default()),
+        Tchoicex70::X66(Default::default()),
+        Tchoicex70::X67(Default::default()),
+        Tchoicex70::X68(Default::default()),
+        Tchoicex70::X69(Default::default()),
+        ]
+    }
+
+    pub fn value_index(&self) -> usize {
+        match self {
+            Tchoicex70::R0(_) => 0,
+            Tchoicex70::X0(_) => 1,
+            Tchoicex70::X1(_) => 2,
+            Tchoicex70::X2(_) => 3,
+            Tchoicex70::X3(_) => 4,
+            Tchoicex70::X4(_) => 5,
+            Tchoicex70::X5(_) => 6,
+            Tchoicex70::X6(_) => 7,
+            Tchoicex70::X7(_) => 8,
+            Tchoicex70::X8(_) => 9,
+            Tchoicex70::X9(_) => 10,
+            Tchoicex70::X10(_) => 11,
+            Tchoicex70::X11(_) => 12,
+            Tchoicex70::X12(_) => 13,
+            Tchoicex70::X13(_) => 14,
+            Tchoicex70::X14(_) => 15,
+            Tchoicex70::X15(_) => 16,
+            Tchoicex70::X16(_) => 17,
+            Tchoicex70::X17(_) => 18,
+            Tchoicex70::X18(_) => 19,
+            Tchoicex70::X19(_) => 20,
+            Tchoicex70::X20(_) => 21,
+            Tchoicex70::X21(_) => 22,
+            Tchoicex70::X22(_) => 23,
+            Tchoicex70::X23(_) => 24,
+            Tchoicex70::X24(_) => 25,
+            Tchoicex70::X25(_) => 26,
+            Tchoicex70::X26(_) => 27,
+            Tchoicex70::X27(_) => 28,
+            Tchoicex70::X28(_) => 29,
+            Tchoicex70::X29(_) => 30,
+            Tchoicex70::X30(_) => 31,
+            Tchoicex70::X31(_) => 32,
+            Tchoicex70::X32(_) => 33,
+            Tchoicex70::X33(_) => 34,
+            Tchoicex70::X34(_) => 35,
+            Tchoicex70::X35(_) => 36,
+            Tchoicex70::X36(_) => 37,
+            Tchoicex70::X37(_) => 38,
+            Tchoicex70::X38(_) => 39,
+            Tchoicex70::X39(_) => 40,
+            Tchoicex70::X40(_) => 41,
+            Tchoicex70::X41(_) => 42,
+            Tchoicex70::X42(_) => 43,
+            Tchoicex70::X43(_) => 44,
+            Tchoicex70::X44(_) => 45,
+            Tchoicex70::X45(_) => 46,
+            Tchoicex70::X46(_) => 47,
+            Tchoicex70::X47(_) => 48,
+            Tchoicex70::X48(_) => 49,
+            Tchoicex70::X49(_) => 50,
+            Tchoicex70::X50(_) => 51,
+            Tchoicex70::X51(_) => 52,
+            Tchoicex70::X52(_) => 53,
+            Tchoicex70::X53(_) => 54,
+            Tchoicex70::X54(_) => 55,
+            Tchoicex70::X55(_) => 56,
+            Tchoicex70::X56(_) => 57,
+            Tchoicex70::X57(_) => 58,
+            Tchoicex70::X58(_) => 59,
+            Tchoicex70::X59(_) => 60,
+            Tchoicex70::X60(_) => 61,
+            Tchoicex70::X61(_) => 62,
+            Tchoicex70::X62(_) => 63,
+            Tchoicex70::X63(_) => 64,
+            Tchoicex70::X64(_) => 65,
+            Tchoicex70::X65(_) => 66,
+            Tchoicex70::X66(_) => 67,
+            Tchoicex70::X67(_) => 68,
+            Tchoicex70::X68(_) => 69,
+            Tchoicex70::X69(_) => 70,
+        }
+    }
+
+    pub const fn x0_min() -> u8 {
+        0
+    }
+
+    pub const fn x0_max() -> u8 {
+        7
+    }
+
+    pub const fn x1_min() -> u8 {
+        0
+    }
+
+    pub const fn x1_max() -> u8 {
+        7
+    }
+
+    pub const fn x2_min() -> u8 {
+        0
+    }
+
+    pub const fn x2_max() -> u8 {
+        7
+    }
+
+    pub const fn x3_min() -> u8 {
+        0
+    }
+
+    pub const fn x3_max() -> u8 {
+        7
+    }
+
+    pub const fn x4_min() -> u8 {
+        0
+    }
+
+    pub const fn x4_max() -> u8 {
+        7
+    }
+
+    pub const fn x5_min() -> u8 {
+        0
+    }
+
+    pub const fn x5_max() -> u8 {
+        7
+    }
+
+    pub const fn x6_min() -> u8 {
+        0
+    }
+
+    pub const fn x6_max() -> u8 {
+        7
+    }
+
+    pub const fn x7_min() -> u8 {
+        0
+    }
+
+    pub const fn x7_max() -> u8 {
+        7
+    }
+
+    pub const fn x8_min() -> u8 {
+        0
+    }
+
+    pub const fn x8_max() -> u8 {
+        7
+    }
+
+    pub const fn x9_min() -> u8 {
+        0
+    }
+
+    pub const fn x9_max() -> u8 {
+        7
+    }
+
+    pub const fn x10_min() -> u8 {
+        0
+    }
+
+    pub const fn x10_max() -> u8 {
+        7
+    }
+
+    pub const fn x11_min() -> u8 {
+        0
+    }
+
+    pub const fn x11_max() -> u8 {
+        7
+    }
+
+    pub const fn x12_min() -> u8 {
+        0
+    }
+
+    pub const fn x12_max() -> u8 {
+        7
+    }
+
+    pub const fn x13_min() -> u8 {
+        0
+    }
+
+    pub const fn x13_max() -> u8 {
+        7
+    }
+
+    pub const fn x14_min() -> u8 {
+        0
+    }
+
+    pub const fn x14_max() -> u8 {
+        7
+    }
+
+    pub const fn x15_min() -> u8 {
+        0
+    }
+
+    pub const fn x15_max() -> u8 {
+        7
+    }
+
+    pub const fn x16_min() -> u8 {
+        0
+    }
+
+    pub const fn x16_max() -> u8 {
+        7
+    }
+
+    pub const fn x17_min() -> u8 {
+        0
+    }
+
+    pub const fn x17_max() -> u8 {
+        7
+    }
+
+    pub const fn x18_min() -> u8 {
+        0
+    }
+
+    pub const fn x18_max() -> u8 {
+        7
+    }
+
+    pub const fn x19_min() -> u8 {
+        0
+    }
+
+    pub const fn x19_max() -> u8 {
+        7
+    }
+
+    pub const fn x20_min() -> u8 {
+        0
+    }
+
+    pub const fn x20_max() -> u8 {
+        7
+    }
+
+    pub const fn x21_min() -> u8 {
+        0
+    }
+
+    pub const fn x21_max() -> u8 {
+        7
+    }
+
+    pub const fn x22_min() -> u8 {
+        0
+    }
+
+    pub const fn x22_max() -> u8 {
+        7
+    }
+
+    pub const fn x23_min() -> u8 {
+        0
+    }
+
+    pub const fn x23_max() -> u8 {
+        7
+    }
+
+    pub const fn x24_min() -> u8 {
+        0
+    }
+
+    pub const fn x24_max() -> u8 {
+        7
+    }
+
+    pub const fn x25_min() -> u8 {
+        0
+    }
+
+    pub const fn x25_max() -> u8 {
+        7
+    }
+
+    pub const fn x26_min() -> u8 {
+        0
+    }
+
+    pub const fn x26_max() -> u8 {
+        7
+    }
+
+    pub const fn x27_min() -> u8 {
+        0
+    }
+
+    pub const fn x27_max() -> u8 {
+        7
+    }
+
+    pub const fn x28_min() -> u8 {
+        0
+    }
+
+    pub const fn x28_max() -> u8 {
+        7
+    }
+
+    pub const fn x29_min() -> u8 {
+        0
+    }
+
+    pub const fn x29_max() -> u8 {
+        7
+    }
+
+    pub const fn x30_min() -> u8 {
+        0
+    }
+
+    pub const fn x30_max() -> u8 {
+        7
+    }
+
+    pub const fn x31_min() -> u8 {
+        0
+    }
+
+    pub const fn x31_max() -> u8 {
+        7
+    }
+
+    pub const fn x32_min() -> u8 {
+        0
+    }
+
+    pub const fn x32_max() -> u8 {
+        7
+    }
+
+    pub const fn x33_min() -> u8 {
+        0
+    }
+
+    pub const fn x33_max() -> u8 {
+        7
+    }
+
+    pub const fn x34_min() -> u8 {
+        0
+    }
+
+    pub const fn x34_max() -> u8 {
+        7
+    }
+
+    pub const fn x35_min() -> u8 {
+        0
+    }
+
+    pub const fn x35_max() -> u8 {
+        7
+    }
+
+    pub const fn x36_min() -> u8 {
+        0
+    }
+
+    pub const fn x36_max() -> u8 {
+        7
+    }
+
+    pub const fn x37_min() -> u8 {
+        0
+    }
+
+    pub const fn x37_max() -> u8 {
+        7
+    }
+
+    pub const fn x38_min() -> u8 {
+        0
+    }
+
+    pub const fn x38_max() -> u8 {
+        7
+    }
+
+    pub const fn x39_min() -> u8 {
+        0
+    }
+
+    pub const fn x39_max() -> u8 {
+        7
+    }
+
+    pub const fn x40_min() -> u8 {
+        0
+    }
+
+    pub const fn x40_max() -> u8 {
+        7
+    }
+
+    pub const fn x41_min() -> u8 {
+        0
+    }
+
+    pub const fn x41_max() -> u8 {
+        7
+    }
+
+    pub const fn x42_min() -> u8 {
+        0
+    }
+
+    pub const fn x42_max() -> u8 {
+        7
+    }
+
+    pub const fn x43_min() -> u8 {
+        0
+    }
+
+    pub const fn x43_max() -> u8 {
+        7
+    }
+
+    pub const fn x44_min() -> u8 {
+        0
+    }
+
+    pub const fn x44_max() -> u8 {
+        7
+    }
+
+    pub const fn x45_min() -> u8 {
+        0
+    }
+
+    pub const fn x45_max() -> u8 {
+        7
+    }
+
+    pub const fn x46_min() -> u8 {
+        0
+    }
+
+    pub const fn x46_max() -> u8 {
+        7
+    }
+
+    pub const fn x47_min() -> u8 {
+        0
+    }
+
+    pub const fn x47_max() -> u8 {
+        7
+    }
+
+    pub const fn x48_min() -> u8 {
+        0
+    }
+
+    pub const fn x48_max() -> u8 {
+        7
+    }
+
+    pub const fn x49_min() -> u8 {
+        0
+    }
+
+    pub const fn x49_max() -> u8 {
+        7
+    }
+
+    pub const fn x50_min() -> u8 {
+        0
+    }
+
+    pub const fn x50_max() -> u8 {
+        7
+    }
+
+    pub const fn x51_min() -> u8 {
+        0
+    }
+
+    pub const fn x51_max() -> u8 {
+        7
+    }
+
+    pub const fn x52_min() -> u8 {
+        0
+    }
+
+    pub const fn x52_max() -> u8 {
+        7
+    }
+
+    pub const fn x53_min() -> u8 {
+        0
+    }
+
+    pub const fn x53_max() -> u8 {
+        7
+    }
+
+    pub const fn x54_min() -> u8 {
+        0
+    }
+
+    pub const fn x54_max() -> u8 {
+        7
+    }
+
+    pub const fn x55_min() -> u8 {
+        0
+    }
+
+    pub const fn x55_max() -> u8 {
+        7
+    }
+
+    pub const fn x56_min() -> u8 {
+        0
+    }
+
+    pub const fn x56_max() -> u8 {
+        7
+    }
+
+    pub const fn x57_min() -> u8 {
+        0
+    }
+
+    pub const fn x57_max() -> u8 {
+        7
+    }
+
+    pub const fn x58_min() -> u8 {
+        0
+    }
+
+    pub const fn x58_max() -> u8 {
+        7
+    }
+
+    pub const fn x59_min() -> u8 {
+        0
+    }
+
+    pub const fn x59_max() -> u8 {
+        7
+    }
+
+    pub const fn x60_min() -> u8 {
+        0
+    }
+
+    pub const fn x60_max() -> u8 {
+        7
+    }
+
+    pub const fn x61_min() -> u8 {
+        0
+    }
+
+    pub const fn x61_max() -> u8 {
+        7
+    }
+
+    pub const fn x62_min() -> u8 {
+        0
+    }
+
+    pub const fn x62_max() -> u8 {
+        7
+    }
+
+    pub const fn x63_min() -> u8 {
+        0
+    }
+
+    pub const fn x63_max() -> u8 {
+        7
+    }
+
+    pub const fn x64_min() -> u8 {
+        0
+    }
+
+    pub const fn x64_max() -> u8 {
+        7
+    }
+
+    pub const fn x65_min() -> u8 {
+        0
+    }
+
+    pub const fn x65_max() -> u8 {
+        7
+    }
+
+    pub const fn x66_min() -> u8 {
+        0
+    }
+
+    pub const fn x66_max() -> u8 {
+        7
+    }
+
+    pub const fn x67_min() -> u8 {
+        0
+    }
+
+    pub const fn x67_max() -> u8 {
+        7
+    }
+
+    pub const fn x68_min() -> u8 {
+        0
+    }
+
+    pub const fn x68_max() -> u8 {
+        7
+    }
+
+    pub const fn x69_min() -> u8 {
+        0
+    }
+
+    pub const fn x69_max() -> u8 {
+        7
+    }
+}
+
+impl Default for Tchoicex70 {
+    fn default() -> Tchoicex70 {
+        Tchoicex70::R0(Default::default())
     }
 }
 
@@ -1399,6 +2696,47 @@ impl ToValue for Tchxnull {
         }
     }
 }
+impl FromValue for Tchlist {
+    fn from_value(v: &Value) -> Self {
+        let (i, inner) = match v { Value::Choice(i, inner) => (*i, &**inner), other => panic!("Tchlist: expected Choice, got {other:?}") };
+        match i {
+            0 => Tchlist::L(FromValue::from_value(inner)),
+            1 => Tchlist::N(FromValue::from_value(inner)),
+            2 => Tchlist::B(FromValue::from_value(inner)),
+            _ => panic!("Tchlist: alternative index {i} out of range"),
+        }
+    }
+}
+impl ToValue for Tchlist {
+    fn to_value(&self) -> Value {
+        match self {
+            Tchlist::L(x) => Value::Choice(0, Box::new(x.to_value())),
+            Tchlist::N(x) => Value::Choice(1, Box::new(x.to_value())),
+            Tchlist::B(x) => Value::Choice(2, Box::new(x.to_value())),
+        }
+    }
+}
+impl FromValue for Tseqchlist {
+    fn from_value(v: &Value) -> Self {
+        let s = match v { Value::Seq(s) => s, other => panic!("Tseqchlist: expected Seq, got {other:?}") };
+        assert_eq!(s.len(), 3, "Tseqchlist: component count");
+        let _ = s;
+        Tseqchlist {
+            pre: FromValue::from_value(s[0].as_ref().expect("component pre of Tseqchlist must be present")),
+            c: FromValue::from_value(s[1].as_ref().expect("component c of Tseqchlist must be present")),
+            post: FromValue::from_value(s[2].as_ref().expect("component post of Tseqchlist must be present")),
+        }
+    }
+}
+impl ToValue for Tseqchlist {
+    fn to_value(&self) -> Value {
+        Value::Seq(vec![
+            Some(self.pre.to_value()),
+            Some(self.c.to_value()),
+            Some(self.post.to_value()),
+        ])
+    }
+}
 impl FromValue for Tplain {
     fn from_value(v: &Value) -> Self {
         let s = match v { Value::Seq(s) => s, other => panic!("Tplain: expected Seq, got {other:?}") };
@@ -1523,6 +2861,434 @@ impl ToValue for Tbitsanythen {
             Some(self.b.to_value()),
             Some(self.i.to_value()),
         ])
+    }
+}
+impl FromValue for Tnullroot {
+    fn from_value(v: &Value) -> Self {
+        let s = match v { Value::Seq(s) => s, other => panic!("Tnullroot: expected Seq, got {other:?}") };
+        assert_eq!(s.len(), 4, "Tnullroot: component count");
+        let _ = s;
+        Tnullroot {
+            n: FromValue::from_value(s[0].as_ref().expect("component n of Tnullroot must be present")),
+            x: FromValue::from_value(s[1].as_ref().expect("component x of Tnullroot must be present")),
+            a: s[2].as_ref().map(FromValue::from_value),
+            b: s[3].as_ref().map(FromValue::from_value),
+        }
+    }
+}
+impl ToValue for Tnullroot {
+    fn to_value(&self) -> Value {
+        Value::Seq(vec![
+            Some(self.n.to_value()),
+            Some(self.x.to_value()),
+            self.a.as_ref().map(|x| x.to_value()),
+            self.b.as_ref().map(|x| x.to_value()),
+        ])
+    }
+}
+impl FromValue for Tfixroot {
+    fn from_value(v: &Value) -> Self {
+        let s = match v { Value::Seq(s) => s, other => panic!("Tfixroot: expected Seq, got {other:?}") };
+        assert_eq!(s.len(), 4, "Tfixroot: component count");
+        let _ = s;
+        Tfixroot {
+            v: FromValue::from_value(s[0].as_ref().expect("component v of Tfixroot must be present")),
+            x: FromValue::from_value(s[1].as_ref().expect("component x of Tfixroot must be present")),
+            a: s[2].as_ref().map(FromValue::from_value),
+            b: s[3].as_ref().map(FromValue::from_value),
+        }
+    }
+}
+impl ToValue for Tfixroot {
+    fn to_value(&self) -> Value {
+        Value::Seq(vec![
+            Some(self.v.to_value()),
+            Some(self.x.to_value()),
+            self.a.as_ref().map(|x| x.to_value()),
+            self.b.as_ref().map(|x| x.to_value()),
+        ])
+    }
+}
+impl FromValue for Tnulloptroot {
+    fn from_value(v: &Value) -> Self {
+        let s = match v { Value::Seq(s) => s, other => panic!("Tnulloptroot: expected Seq, got {other:?}") };
+        assert_eq!(s.len(), 3, "Tnulloptroot: component count");
+        let _ = s;
+        Tnulloptroot {
+            n: s[0].as_ref().map(FromValue::from_value),
+            x: FromValue::from_value(s[1].as_ref().expect("component x of Tnulloptroot must be present")),
+            a: s[2].as_ref().map(FromValue::from_value),
+        }
+    }
+}
+impl ToValue for Tnulloptroot {
+    fn to_value(&self) -> Value {
+        Value::Seq(vec![
+            self.n.as_ref().map(|x| x.to_value()),
+            Some(self.x.to_value()),
+            self.a.as_ref().map(|x| x.to_value()),
+        ])
+    }
+}
+impl FromValue for Tempty { fn from_value(_: &Value) -> Self { Tempty } }
+impl ToValue for Tempty { fn to_value(&self) -> Value { Value::Seq(vec![]) } }
+impl FromValue for TzerobitsEn {
+    fn from_value(v: &Value) -> Self {
+        match v {
+            Value::Enum(0) => TzerobitsEn::E0,
+            other => panic!("TzerobitsEn: bad enum value {other:?}"),
+        }
+    }
+}
+impl ToValue for TzerobitsEn {
+    fn to_value(&self) -> Value {
+        match self {
+            TzerobitsEn::E0 => Value::Enum(0),
+        }
+    }
+}
+impl FromValue for Tzerobits {
+    fn from_value(v: &Value) -> Self {
+        let s = match v { Value::Seq(s) => s, other => panic!("Tzerobits: expected Seq, got {other:?}") };
+        assert_eq!(s.len(), 8, "Tzerobits: component count");
+        let _ = s;
+        Tzerobits {
+            e: FromValue::from_value(s[0].as_ref().expect("component e of Tzerobits must be present")),
+            o: FromValue::from_value(s[1].as_ref().expect("component o of Tzerobits must be present")),
+            en: FromValue::from_value(s[2].as_ref().expect("component en of Tzerobits must be present")),
+            s: FromValue::from_value(s[3].as_ref().expect("component s of Tzerobits must be present")),
+            l: FromValue::from_value(s[4].as_ref().expect("component l of Tzerobits must be present")),
+            x: FromValue::from_value(s[5].as_ref().expect("component x of Tzerobits must be present")),
+            a: s[6].as_ref().map(FromValue::from_value),
+            b: s[7].as_ref().map(FromValue::from_value),
+        }
+    }
+}
+impl ToValue for Tzerobits {
+    fn to_value(&self) -> Value {
+        Value::Seq(vec![
+            Some(self.e.to_value()),
+            Some(self.o.to_value()),
+            Some(self.en.to_value()),
+            Some(self.s.to_value()),
+            Some(self.l.to_value()),
+            Some(self.x.to_value()),
+            self.a.as_ref().map(|x| x.to_value()),
+            self.b.as_ref().map(|x| x.to_value()),
+        ])
+    }
+}
+impl FromValue for Tenumx70 {
+    fn from_value(v: &Value) -> Self {
+        match v {
+            Value::Enum(0) => Tenumx70::R0,
+            Value::Enum(1) => Tenumx70::R1,
+            Value::Enum(2) => Tenumx70::X0,
+            Value::Enum(3) => Tenumx70::X1,
+            Value::Enum(4) => Tenumx70::X2,
+            Value::Enum(5) => Tenumx70::X3,
+            Value::Enum(6) => Tenumx70::X4,
+            Value::Enum(7) => Tenumx70::X5,
+            Value::Enum(8) => Tenumx70::X6,
+            Value::Enum(9) => Tenumx70::X7,
+            Value::Enum(10) => Tenumx70::X8,
+            Value::Enum(11) => Tenumx70::X9,
+            Value::Enum(12) => Tenumx70::X10,
+            Value::Enum(13) => Tenumx70::X11,
+            Value::Enum(14) => Tenumx70::X12,
+            Value::Enum(15) => Tenumx70::X13,
+            Value::Enum(16) => Tenumx70::X14,
+            Value::Enum(17) => Tenumx70::X15,
+            Value::Enum(18) => Tenumx70::X16,
+            Value::Enum(19) => Tenumx70::X17,
+            Value::Enum(20) => Tenumx70::X18,
+            Value::Enum(21) => Tenumx70::X19,
+            Value::Enum(22) => Tenumx70::X20,
+            Value::Enum(23) => Tenumx70::X21,
+            Value::Enum(24) => Tenumx70::X22,
+            Value::Enum(25) => Tenumx70::X23,
+            Value::Enum(26) => Tenumx70::X24,
+            Value::Enum(27) => Tenumx70::X25,
+            Value::Enum(28) => Tenumx70::X26,
+            Value::Enum(29) => Tenumx70::X27,
+            Value::Enum(30) => Tenumx70::X28,
+            Value::Enum(31) => Tenumx70::X29,
+            Value::Enum(32) => Tenumx70::X30,
+            Value::Enum(33) => Tenumx70::X31,
+            Value::Enum(34) => Tenumx70::X32,
+            Value::Enum(35) => Tenumx70::X33,
+            Value::Enum(36) => Tenumx70::X34,
+            Value::Enum(37) => Tenumx70::X35,
+            Value::Enum(38) => Tenumx70::X36,
+            Value::Enum(39) => Tenumx70::X37,
+            Value::Enum(40) => Tenumx70::X38,
+            Value::Enum(41) => Tenumx70::X39,
+            Value::Enum(42) => Tenumx70::X40,
+            Value::Enum(43) => Tenumx70::X41,
+            Value::Enum(44) => Tenumx70::X42,
+            Value::Enum(45) => Tenumx70::X43,
+            Value::Enum(46) => Tenumx70::X44,
+            Value::Enum(47) => Tenumx70::X45,
+            Value::Enum(48) => Tenumx70::X46,
+            Value::Enum(49) => Tenumx70::X47,
+            Value::Enum(50) => Tenumx70::X48,
+            Value::Enum(51) => Tenumx70::X49,
+            Value::Enum(52) => Tenumx70::X50,
+            Value::Enum(53) => Tenumx70::X51,
+            Value::Enum(54) => Tenumx70::X52,
+            Value::Enum(55) => Tenumx70::X53,
+            Value::Enum(56) => Tenumx70::X54,
+            Value::Enum(57) => Tenumx70::X55,
+            Value::Enum(58) => Tenumx70::X56,
+            Value::Enum(59) => Tenumx70::X57,
+            Value::Enum(60) => Tenumx70::X58,
+            Value::Enum(61) => Tenumx70::X59,
+            Value::Enum(62) => Tenumx70::X60,
+            Value::Enum(63) => Tenumx70::X61,
+            Value::Enum(64) => Tenumx70::X62,
+            Value::Enum(65) => Tenumx70::X63,
+            Value::Enum(66) => Tenumx70::X64,
+            Value::Enum(67) => Tenumx70::X65,
+            Value::Enum(68) => Tenumx70::X66,
+            Value::Enum(69) => Tenumx70::X67,
+            Value::Enum(70) => Tenumx70::X68,
+            Value::Enum(71) => Tenumx70::X69,
+            other => panic!("Tenumx70: bad enum value {other:?}"),
+        }
+    }
+}
+impl ToValue for Tenumx70 {
+    fn to_value(&self) -> Value {
+        match self {
+            Tenumx70::R0 => Value::Enum(0),
+            Tenumx70::R1 => Value::Enum(1),
+            Tenumx70::X0 => Value::Enum(2),
+            Tenumx70::X1 => Value::Enum(3),
+            Tenumx70::X2 => Value::Enum(4),
+            Tenumx70::X3 => Value::Enum(5),
+            Tenumx70::X4 => Value::Enum(6),
+            Tenumx70::X5 => Value::Enum(7),
+            Tenumx70::X6 => Value::Enum(8),
+            Tenumx70::X7 => Value::Enum(9),
+            Tenumx70::X8 => Value::Enum(10),
+            Tenumx70::X9 => Value::Enum(11),
+            Tenumx70::X10 => Value::Enum(12),
+            Tenumx70::X11 => Value::Enum(13),
+            Tenumx70::X12 => Value::Enum(14),
+            Tenumx70::X13 => Value::Enum(15),
+            Tenumx70::X14 => Value::Enum(16),
+            Tenumx70::X15 => Value::Enum(17),
+            Tenumx70::X16 => Value::Enum(18),
+            Tenumx70::X17 => Value::Enum(19),
+            Tenumx70::X18 => Value::Enum(20),
+            Tenumx70::X19 => Value::Enum(21),
+            Tenumx70::X20 => Value::Enum(22),
+            Tenumx70::X21 => Value::Enum(23),
+            Tenumx70::X22 => Value::Enum(24),
+            Tenumx70::X23 => Value::Enum(25),
+            Tenumx70::X24 => Value::Enum(26),
+            Tenumx70::X25 => Value::Enum(27),
+            Tenumx70::X26 => Value::Enum(28),
+            Tenumx70::X27 => Value::Enum(29),
+            Tenumx70::X28 => Value::Enum(30),
+            Tenumx70::X29 => Value::Enum(31),
+            Tenumx70::X30 => Value::Enum(32),
+            Tenumx70::X31 => Value::Enum(33),
+            Tenumx70::X32 => Value::Enum(34),
+            Tenumx70::X33 => Value::Enum(35),
+            Tenumx70::X34 => Value::Enum(36),
+            Tenumx70::X35 => Value::Enum(37),
+            Tenumx70::X36 => Value::Enum(38),
+            Tenumx70::X37 => Value::Enum(39),
+            Tenumx70::X38 => Value::Enum(40),
+            Tenumx70::X39 => Value::Enum(41),
+            Tenumx70::X40 => Value::Enum(42),
+            Tenumx70::X41 => Value::Enum(43),
+            Tenumx70::X42 => Value::Enum(44),
+            Tenumx70::X43 => Value::Enum(45),
+            Tenumx70::X44 => Value::Enum(46),
+            Tenumx70::X45 => Value::Enum(47),
+            Tenumx70::X46 => Value::Enum(48),
+            Tenumx70::X47 => Value::Enum(49),
+            Tenumx70::X48 => Value::Enum(50),
+            Tenumx70::X49 => Value::Enum(51),
+            Tenumx70::X50 => Value::Enum(52),
+            Tenumx70::X51 => Value::Enum(53),
+            Tenumx70::X52 => Value::Enum(54),
+            Tenumx70::X53 => Value::Enum(55),
+            Tenumx70::X54 => Value::Enum(56),
+            Tenumx70::X55 => Value::Enum(57),
+            Tenumx70::X56 => Value::Enum(58),
+            Tenumx70::X57 => Value::Enum(59),
+            Tenumx70::X58 => Value::Enum(60),
+            Tenumx70::X59 => Value::Enum(61),
+            Tenumx70::X60 => Value::Enum(62),
+            Tenumx70::X61 => Value::Enum(63),
+            Tenumx70::X62 => Value::Enum(64),
+            Tenumx70::X63 => Value::Enum(65),
+            Tenumx70::X64 => Value::Enum(66),
+            Tenumx70::X65 => Value::Enum(67),
+            Tenumx70::X66 => Value::Enum(68),
+            Tenumx70::X67 => Value::Enum(69),
+            Tenumx70::X68 => Value::Enum(70),
+            Tenumx70::X69 => Value::Enum(71),
+        }
+    }
+}
+impl FromValue for Tchoicex70 {
+    fn from_value(v: &Value) -> Self {
+        let (i, inner) = match v { Value::Choice(i, inner) => (*i, &**inner), other => panic!("Tchoicex70: expected Choice, got {other:?}") };
+        match i {
+            0 => Tchoicex70::R0(FromValue::from_value(inner)),
+            1 => Tchoicex70::X0(FromValue::from_value(inner)),
+            2 => Tchoicex70::X1(FromValue::from_value(inner)),
+            3 => Tchoicex70::X2(FromValue::from_value(inner)),
+            4 => Tchoicex70::X3(FromValue::from_value(inner)),
+            5 => Tchoicex70::X4(FromValue::from_value(inner)),
+            6 => Tchoicex70::X5(FromValue::from_value(inner)),
+            7 => Tchoicex70::X6(FromValue::from_value(inner)),
+            8 => Tchoicex70::X7(FromValue::from_value(inner)),
+            9 => Tchoicex70::X8(FromValue::from_value(inner)),
+            10 => Tchoicex70::X9(FromValue::from_value(inner)),
+            11 => Tchoicex70::X10(FromValue::from_value(inner)),
+            12 => Tchoicex70::X11(FromValue::from_value(inner)),
+            13 => Tchoicex70::X12(FromValue::from_value(inner)),
+            14 => Tchoicex70::X13(FromValue::from_value(inner)),
+            15 => Tchoicex70::X14(FromValue::from_value(inner)),
+            16 => Tchoicex70::X15(FromValue::from_value(inner)),
+            17 => Tchoicex70::X16(FromValue::from_value(inner)),
+            18 => Tchoicex70::X17(FromValue::from_value(inner)),
+            19 => Tchoicex70::X18(FromValue::from_value(inner)),
+            20 => Tchoicex70::X19(FromValue::from_value(inner)),
+            21 => Tchoicex70::X20(FromValue::from_value(inner)),
+            22 => Tchoicex70::X21(FromValue::from_value(inner)),
+            23 => Tchoicex70::X22(FromValue::from_value(inner)),
+            24 => Tchoicex70::X23(FromValue::from_value(inner)),
+            25 => Tchoicex70::X24(FromValue::from_value(inner)),
+            26 => Tchoicex70::X25(FromValue::from_value(inner)),
+            27 => Tchoicex70::X26(FromValue::from_value(inner)),
+            28 => Tchoicex70::X27(FromValue::from_value(inner)),
+            29 => Tchoicex70::X28(FromValue::from_value(inner)),
+            30 => Tchoicex70::X29(FromValue::from_value(inner)),
+            31 => Tchoicex70::X30(FromValue::from_value(inner)),
+            32 => Tchoicex70::X31(FromValue::from_value(inner)),
+            33 => Tchoicex70::X32(FromValue::from_value(inner)),
+            34 => Tchoicex70::X33(FromValue::from_value(inner)),
+            35 => Tchoicex70::X34(FromValue::from_value(inner)),
+            36 => Tchoicex70::X35(FromValue::from_value(inner)),
+            37 => Tchoicex70::X36(FromValue::from_value(inner)),
+            38 => Tchoicex70::X37(FromValue::from_value(inner)),
+            39 => Tchoicex70::X38(FromValue::from_value(inner)),
+            40 => Tchoicex70::X39(FromValue::from_value(inner)),
+            41 => Tchoicex70::X40(FromValue::from_value(inner)),
+            42 => Tchoicex70::X41(FromValue::from_value(inner)),
+            43 => Tchoicex70::X42(FromValue::from_value(inner)),
+            44 => Tchoicex70::X43(FromValue::from_value(inner)),
+            45 => Tchoicex70::X44(FromValue::from_value(inner)),
+            46 => Tchoicex70::X45(FromValue::from_value(inner)),
+            47 => Tchoicex70::X46(FromValue::from_value(inner)),
+            48 => Tchoicex70::X47(FromValue::from_value(inner)),
+            49 => Tchoicex70::X48(FromValue::from_value(inner)),
+            50 => Tchoicex70::X49(FromValue::from_value(inner)),
+            51 => Tchoicex70::X50(FromValue::from_value(inner)),
+            52 => Tchoicex70::X51(FromValue::from_value(inner)),
+            53 => Tchoicex70::X52(FromValue::from_value(inner)),
+            54 => Tchoicex70::X53(FromValue::from_value(inner)),
+            55 => Tchoicex70::X54(FromValue::from_value(inner)),
+            56 => Tchoicex70::X55(FromValue::from_value(inner)),
+            57 => Tchoicex70::X56(FromValue::from_value(inner)),
+            58 => Tchoicex70::X57(FromValue::from_value(inner)),
+            59 => Tchoicex70::X58(FromValue::from_value(inner)),
+            60 => Tchoicex70::X59(FromValue::from_value(inner)),
+            61 => Tchoicex70::X60(FromValue::from_value(inner)),
+            62 => Tchoicex70::X61(FromValue::from_value(inner)),
+            63 => Tchoicex70::X62(FromValue::from_value(inner)),
+            64 => Tchoicex70::X63(FromValue::from_value(inner)),
+            65 => Tchoicex70::X64(FromValue::from_value(inner)),
+            66 => Tchoicex70::X65(FromValue::from_value(inner)),
+            67 => Tchoicex70::X66(FromValue::from_value(inner)),
+            68 => Tchoicex70::X67(FromValue::from_value(inner)),
+            69 => Tchoicex70::X68(FromValue::from_value(inner)),
+            70 => Tchoicex70::X69(FromValue::from_value(inner)),
+            _ => panic!("Tchoicex70: alternative index {i} out of range"),
+        }
+    }
+}
+impl ToValue for Tchoicex70 {
+    fn to_value(&self) -> Value {
+        match self {
+            Tchoicex70::R0(x) => Value::Choice(0, Box::new(x.to_value())),
+            Tchoicex70::X0(x) => Value::Choice(1, Box::new(x.to_value())),
+            Tchoicex70::X1(x) => Value::Choice(2, Box::new(x.to_value())),
+            Tchoicex70::X2(x) => Value::Choice(3, Box::new(x.to_value())),
+            Tchoicex70::X3(x) => Value::Choice(4, Box::new(x.to_value())),
+            Tchoicex70::X4(x) => Value::Choice(5, Box::new(x.to_value())),
+            Tchoicex70::X5(x) => Value::Choice(6, Box::new(x.to_value())),
+            Tchoicex70::X6(x) => Value::Choice(7, Box::new(x.to_value())),
+            Tchoicex70::X7(x) => Value::Choice(8, Box::new(x.to_value())),
+            Tchoicex70::X8(x) => Value::Choice(9, Box::new(x.to_value())),
+            Tchoicex70::X9(x) => Value::Choice(10, Box::new(x.to_value())),
+            Tchoicex70::X10(x) => Value::Choice(11, Box::new(x.to_value())),
+            Tchoicex70::X11(x) => Value::Choice(12, Box::new(x.to_value())),
+            Tchoicex70::X12(x) => Value::Choice(13, Box::new(x.to_value())),
+            Tchoicex70::X13(x) => Value::Choice(14, Box::new(x.to_value())),
+            Tchoicex70::X14(x) => Value::Choice(15, Box::new(x.to_value())),
+            Tchoicex70::X15(x) => Value::Choice(16, Box::new(x.to_value())),
+            Tchoicex70::X16(x) => Value::Choice(17, Box::new(x.to_value())),
+            Tchoicex70::X17(x) => Value::Choice(18, Box::new(x.to_value())),
+            Tchoicex70::X18(x) => Value::Choice(19, Box::new(x.to_value())),
+            Tchoicex70::X19(x) => Value::Choice(20, Box::new(x.to_value())),
+            Tchoicex70::X20(x) => Value::Choice(21, Box::new(x.to_value())),
+            Tchoicex70::X21(x) => Value::Choice(22, Box::new(x.to_value())),
+            Tchoicex70::X22(x) => Value::Choice(23, Box::new(x.to_value())),
+            Tchoicex70::X23(x) => Value::Choice(24, Box::new(x.to_value())),
+            Tchoicex70::X24(x) => Value::Choice(25, Box::new(x.to_value())),
+            Tchoicex70::X25(x) => Value::Choice(26, Box::new(x.to_value())),
+            Tchoicex70::X26(x) => Value::Choice(27, Box::new(x.to_value())),
+            Tchoicex70::X27(x) => Value::Choice(28, Box::new(x.to_value())),
+            Tchoicex70::X28(x) => Value::Choice(29, Box::new(x.to_value())),
+            Tchoicex70::X29(x) => Value::Choice(30, Box::new(x.to_value())),
+            Tchoicex70::X30(x) => Value::Choice(31, Box::new(x.to_value())),
+            Tchoicex70::X31(x) => Value::Choice(32, Box::new(x.to_value())),
+            Tchoicex70::X32(x) => Value::Choice(33, Box::new(x.to_value())),
+            Tchoicex70::X33(x) => Value::Choice(34, Box::new(x.to_value())),
+            Tchoicex70::X34(x) => Value::Choice(35, Box::new(x.to_value())),
+            Tchoicex70::X35(x) => Value::Choice(36, Box::new(x.to_value())),
+            Tchoicex70::X36(x) => Value::Choice(37, Box::new(x.to_value())),
+            Tchoicex70::X37(x) => Value::Choice(38, Box::new(x.to_value())),
+            Tchoicex70::X38(x) => Value::Choice(39, Box::new(x.to_value())),
+            Tchoicex70::X39(x) => Value::Choice(40, Box::new(x.to_value())),
+            Tchoicex70::X40(x) => Value::Choice(41, Box::new(x.to_value())),
+            Tchoicex70::X41(x) => Value::Choice(42, Box::new(x.to_value())),
+            Tchoicex70::X42(x) => Value::Choice(43, Box::new(x.to_value())),
+            Tchoicex70::X43(x) => Value::Choice(44, Box::new(x.to_value())),
+            Tchoicex70::X44(x) => Value::Choice(45, Box::new(x.to_value())),
+            Tchoicex70::X45(x) => Value::Choice(46, Box::new(x.to_value())),
+            Tchoicex70::X46(x) => Value::Choice(47, Box::new(x.to_value())),
+            Tchoicex70::X47(x) => Value::Choice(48, Box::new(x.to_value())),
+            Tchoicex70::X48(x) => Value::Choice(49, Box::new(x.to_value())),
+            Tchoicex70::X49(x) => Value::Choice(50, Box::new(x.to_value())),
+            Tchoicex70::X50(x) => Value::Choice(51, Box::new(x.to_value())),
+            Tchoicex70::X51(x) => Value::Choice(52, Box::new(x.to_value())),
+            Tchoicex70::X52(x) => Value::Choice(53, Box::new(x.to_value())),
+            Tchoicex70::X53(x) => Value::Choice(54, Box::new(x.to_value())),
+            Tchoicex70::X54(x) => Value::Choice(55, Box::new(x.to_value())),
+            Tchoicex70::X55(x) => Value::Choice(56, Box::new(x.to_value())),
+            Tchoicex70::X56(x) => Value::Choice(57, Box::new(x.to_value())),
+            Tchoicex70::X57(x) => Value::Choice(58, Box::new(x.to_value())),
+            Tchoicex70::X58(x) => Value::Choice(59, Box::new(x.to_value())),
+            Tchoicex70::X59(x) => Value::Choice(60, Box::new(x.to_value())),
+            Tchoicex70::X60(x) => Value::Choice(61, Box::new(x.to_value())),
+            Tchoicex70::X61(x) => Value::Choice(62, Box::new(x.to_value())),
+            Tchoicex70::X62(x) => Value::Choice(63, Box::new(x.to_value())),
+            Tchoicex70::X63(x) => Value::Choice(64, Box::new(x.to_value())),
+            Tchoicex70::X64(x) => Value::Choice(65, Box::new(x.to_value())),
+            Tchoicex70::X65(x) => Value::Choice(66, Box::new(x.to_value())),
+            Tchoicex70::X66(x) => Value::Choice(67, Box::new(x.to_value())),
+            Tchoicex70::X67(x) => Value::Choice(68, Box::new(x.to_value())),
+            Tchoicex70::X68(x) => Value::Choice(69, Box::new(x.to_value())),
+            Tchoicex70::X69(x) => Value::Choice(70, Box::new(x.to_value())),
+        }
     }
 }
 impl FromValue for Tref1 { fn from_value(v: &Value) -> Self { Tref1(FromValue::from_value(v)) } }
